@@ -58,6 +58,18 @@ type runLine struct {
 	Out  *Outcome `json:"out"`
 }
 
+// runs slower than this are named on stderr (VERIF_SLOW_MS overrides)
+var slowRun = func() time.Duration {
+	if v := os.Getenv("VERIF_SLOW_MS"); v != "" {
+		var ms int
+		fmt.Sscan(v, &ms)
+		if ms > 0 {
+			return time.Duration(ms) * time.Millisecond
+		}
+	}
+	return 20 * time.Second
+}()
+
 // WorkerMain implements the "worker", "exec1" and "shrink" sub-commands shared
 // by every harness binary.
 func WorkerMain(args []string, engines map[string]Engine) int {
@@ -112,7 +124,7 @@ func workerCmd(args []string, engines map[string]Engine) int {
 		wantFull := *full || int(k) < *samples
 		began := time.Now()
 		o := RunOnce(e, NewTape(seed), idx, wantFull)
-		if d := time.Since(began); d > 20*time.Second {
+		if d := time.Since(began); d > slowRun {
 			fmt.Fprintf(os.Stderr, "slow run: engine %s index %d took %v\n", e.Name(), idx, d.Round(time.Second))
 		}
 		sum.Runs++
